@@ -20,7 +20,11 @@ RULE = ("differential: one causal script (client byte stream with 1-4 sequential
         "replies, zero-latency addon edits, client FIN only after the last expected response) is executed once with "
         "whole-stream delivery and k times (quick 3, thorough 12) with seeded cut points (random, one-byte runs in "
         "framing-critical regions, first-flight cuts) and varied relative arrival of client and origin segments; the "
-        "hook sequences, recorded flows and the message sequences read by P at both peers must be equal. non-trivial = "
+        "hook sequences, recorded flows and the message sequences read by P at both peers must be equal. Upgrade family "
+        "(15%): `Upgrade` request + opaque client payload / origin `101` + opaque payload + echo; baseline = both streams "
+        "whole (payload glued to the request / to the 101), variants re-segment both streams and move the client's payload "
+        "(with the request, before the 101, while a responseheaders/response hook is pending, after the 101); additionally "
+        "equal: bytes each peer got behind the HTTP message, tcp flow started, tcp flow content per direction. non-trivial = "
         "a request reached an origin or a response the client AND at least one variant really delivered >1 segment; "
         "distinct = distinct event-log digests of the baseline run + cut layout")
 COMPONENTS_REAL = c01.COMPONENTS_REAL
@@ -30,7 +34,9 @@ ASSUMPTIONS = ["segments are delivered with a positive virtual-time gap, i.e. th
                "depend on when the close is seen",
                "options that make behaviour depend on buffered amounts (stream_large_bodies, body_size_limit) are off here (C07)"]
 EXPECTED_PROBES = ["variants_run", "pipelined", "one_byte_segments", "first_flight_cut_lt_request_line",
-                   "surplus_after_response"]
+                   "surplus_after_response", "upgrade_family", "client_payload_in_request_segment",
+                   "client_payload_before_101", "client_payload_while_response_hook_pending", "client_payload_after_101",
+                   "upgrade_round_trip_complete"]
 
 TOK = re.compile(rb"/r(\d+)")
 MODES = [("regular", 5), ("reverse:http://a.test:80", 2), ("transparent", 3)]
@@ -77,7 +83,164 @@ def gen_variant(r, sc):
     return var
 
 
+# ---------------------------------------------------------------------------
+# upgrade family: `Upgrade:` request + opaque client payload / `101` + opaque origin payload (+ echo)
+# ---------------------------------------------------------------------------
+UPGRADE_SHARE = 0.15
+C_END, S_END = "<C-END>", "<S-END>"
+ARRIVALS = ["with_request", "before_101", "during_hook", "after_101"]
+_OPAQUE = bytes(b for b in range(256) if b != 0x3C)  # no '<': the end markers occur exactly once
+
+
+def _opaque(r, kind, n, tag):
+    """opaque bytes of the upgraded protocol (never contain '<' except in the tags)"""
+    if kind == "http":
+        # looks like HTTP: must be relayed untouched once the protocol has been switched, not parsed
+        body = (b"GET /r7/not-http HTTP/1.1\r\nHost: a.test\r\nContent-Length: 3\r\n\r\nabc" if tag == "C"
+                else b"HTTP/1.1 200 OK\r\nX-R7: w7\r\nContent-Length: 3\r\n\r\nabc")
+    elif kind == "text":
+        body = b"".join(b"%s line %d\r\n" % (tag.encode(), i) for i in range(max(1, n // 10)))
+    else:
+        body = bytes(r.choice(_OPAQUE) for _ in range(n))
+        # (whether line ends in front of the first payload byte survive is a question of its own: lead_eol payloads)
+        body = body.lstrip(b"\r\n") or b"x"
+    if kind == "lead_eol":
+        body = r.choice([b"\r\n", b"\n", b"\r\n\r\n", b"\r"]) + body
+    return b"<%s-BEGIN>" % tag.encode() + body if kind == "tagged" else body
+
+
+def _seg(r, data: bytes, styles):
+    n = len(data)
+    style = r.choice(styles)
+    if style == "critical":
+        cuts = _critical_cuts(r, data)
+    elif style == "first":
+        cuts = [r.randrange(1, min(n, 24))] if n > 1 else []
+    elif style == "tail":
+        # one-byte segments at the very end (end of the head / end of the payload)
+        cuts = list(range(max(1, n - r.choice([2, 4, 9])), n))
+    else:
+        cuts = G.gen_cuts(r, n, style)
+    gaps = [r.choice([0.0005, 0.002, 0.03, 0.2] if len(cuts) < 12 else [0.0005, 0.002, 0.01]) for _ in range(len(cuts) + 1)]
+    return {"cuts": cuts, "gaps": gaps}
+
+
+def gen_upgrade_variant(r, sc):
+    up = sc["upgrade"]
+    req, pay = H.B(up["request"]), H.B(up["client_payload"])
+    rv = _seg(r, req, ["none", "none", "few", "many", "critical", "head", "bytes", "first", "tail"])
+    if sc["modes"][0] == "transparent" and r.random() < 0.85:
+        eol = req.find(b"\n")
+        rv["cuts"] = [c for c in rv["cuts"] if c > eol]
+        rv["gaps"] = rv["gaps"][:len(rv["cuts"]) + 1]
+    pv = _seg(r, pay, ["none", "none", "few", "many", "bytes", "first", "tail"])
+    rp = H.B(sc["origins"]["*"]["replies"]["0"]["data"])
+    head_end = rp.find(b"\r\n\r\n") + 4
+    ov = _seg(r, rp, ["none", "few", "many", "critical", "bytes", "boundary"])
+    if not ov["cuts"] and r.random() < 0.5:
+        # the 101 head on its own / with the first payload byte(s) / short of its last byte
+        ov["cuts"] = [head_end + r.choice([0, 0, 1, -1, 5])]
+        ov["gaps"] = [r.choice([0.0005, 0.03]), r.choice([0.0005, 0.03, 0.2, 1.5])]
+    arrival = r.choice(ARRIVALS)
+    hook = None
+    if arrival == "during_hook":
+        hook = {"hook": r.choice(["responseheaders", "response"]), "latency": None}  # latency laid out in apply_variant
+    elif r.random() < 0.3:
+        hook = {"hook": r.choice(["requestheaders", "request", "responseheaders", "response"]),
+                "latency": r.choice([0.001, 0.05, 0.5])}
+    return {"arrival": arrival, "join": r.random() < 0.6, "pause": r.choice([0.0, 0.0005, 0.01, 0.2]), "hook": hook,
+            "client": [rv, pv], "replies": {"0": ov}}
+
+
+def gen_upgrade(rng, tier):
+    r = rng.at("c02-upgrade-gen")
+    mode = c01._wchoice(r, MODES)
+    form = "absolute" if mode == "regular" else "origin"
+    proto = r.choice(["foo", "chat/1.2", "websocket", "TLS/1.0, HTTP/1.1"])  # (no Sec-WebSocket-Version: raw relay)
+    path = "/r0" + r.choice(["", "/chat", "/p?q=1"])
+    target = ("http://a.test" if form == "absolute" else "") + path
+    method, body = "GET", b""
+    fields = [["Host", "a.test"], ["Connection", r.choice(["Upgrade", "upgrade", "keep-alive, Upgrade"])],
+              ["Upgrade", proto], ["X-F0", "v0"]]
+    if r.random() < 0.1:
+        method, body = "POST", G.rand_body(r, r.choice([1, 17, 100]), 0).replace(b"<", b"(")
+        fields.append(["Content-Length", str(len(body))])
+    req = (f"{method} {target} HTTP/1.1\r\n" + "".join(f"{k}: {v}\r\n" for k, v in fields) + "\r\n").encode("latin1") + body
+    kinds = ["binary", "binary", "text", "http", "tagged", "lead_eol"]
+    cpay = _opaque(r, r.choice(kinds), r.choice([1, 5, 40, 300, 2000]), "C") + C_END.encode()
+    spay = _opaque(r, r.choice(kinds), r.choice([1, 5, 40, 300, 2000]), "S") + S_END.encode()
+    reason = r.choice(["Switching Protocols", "Switching Protocols", "Upgrade", ""])
+    head = (f"HTTP/1.1 101 {reason}\r\nUpgrade: {proto.split(',')[0]}\r\nConnection: Upgrade\r\nX-R0: w0\r\n\r\n").encode("latin1")
+    reply = {"data": G.S(head + spay), "then": "tunnel", "echo": True, "cuts": [], "gaps": [], "method": method}
+    policy = []
+    for _ in range(r.choice([0, 0, 1, 2])):
+        hook = r.choice(["requestheaders", "request", "responseheaders", "response"])
+        which = "request" if hook in ("requestheaders", "request") else "response"
+        policy.append({"hook": hook, "nth": 0, "latency": 0, "action": "edit", "which": which,
+                       "edits": [r.choice([{"k": "set_header", "name": "X-Edited", "value": "1"},
+                                           {"k": "add_header", "name": "X-Dup", "value": "1"}])]})
+    options = {"connection_strategy": r.choice(["eager", "lazy"]), "validate_inbound_headers": True}
+    origin = {"kind": "h1", "replies": {"0": reply}, "idle_close": 200.0, "connect": [{"delay": r.choice([0, 0.01])}]}
+    # baseline: both streams delivered whole (the payload in the same segment as the request / as the 101)
+    steps = [{"op": "send", "data": G.S(req + cpay), "cuts": [], "gaps": []},
+             {"op": "await_marker", "marker": C_END, "timeout": 400.0}, {"op": "fin"}]
+    sc = {"family": "http1-" + mode.split(":")[0] + "-upgrade", "modes": [mode], "eager": r.random() < 0.5, "options": options,
+          "clients": [{"steps": steps, "methods": [method],
+                       "original_dst": ["a.test", 80] if mode == "transparent" else None}],
+          "origins": {"*": origin}, "policy": policy, "faults": [], "settle": 250.0, "max_time": 3000.0,
+          "pipelined": False,
+          "upgrade": {"request": G.S(req), "client_payload": G.S(cpay), "server_payload": G.S(spay)}}
+    nvar = 3 if tier == "quick" else 12
+    sc["variants"] = [gen_upgrade_variant(r, sc) for _ in range(nvar)]
+    return sc
+
+
+def apply_upgrade_variant(s, var):
+    """lay out the client's steps for one arrival order of the same two byte streams"""
+    up = s["upgrade"]
+    req, pay = up["request"], up["client_payload"]
+    rv, pv = (list(var.get("client") or []) + [None, None])[:2]
+    rv, pv = rv or {"cuts": [], "gaps": []}, pv or {"cuts": [], "gaps": []}
+    rc = sorted({c for c in rv["cuts"] if 0 < c < len(req)})
+    pc = sorted({c for c in pv["cuts"] if 0 < c < len(pay)})
+    rg = (list(rv["gaps"]) + [0.0005] * (len(rc) + 1))[:len(rc) + 1]
+    pg = (list(pv["gaps"]) + [0.0005] * (len(pc) + 1))[:len(pc) + 1]
+    arrival = var.get("arrival", "with_request")
+    pause = var.get("pause", 0.0)
+    rp = s["origins"]["*"]["replies"].get("0")
+    ov = (var.get("replies") or {}).get("0")
+    if rp is not None and ov is not None:
+        rp["cuts"], rp["gaps"] = ov["cuts"], ov["gaps"]
+    hook = var.get("hook")
+    if arrival == "with_request":
+        join = bool(var.get("join"))
+        cuts = rc + ([] if join else [len(req)]) + [len(req) + c for c in pc]
+        steps = [{"op": "send", "data": req + pay, "cuts": cuts, "gaps": rg + pg[(1 if join else 0):]}]
+    else:
+        first = {"op": "send", "data": req, "cuts": rc, "gaps": rg}
+        second = {"op": "send", "data": pay, "cuts": pc, "gaps": pg}
+        if arrival == "after_101":
+            steps = [first, {"op": "await", "n": 1, "timeout": 400.0}, {"op": "sleep", "t": pause}, second]
+        else:
+            steps = [first, {"op": "sleep", "t": pause}, second]
+            # everything of the client's payload is at the proxy before the 101 is relayed
+            hold = pause + sum(pg) + 1.0
+            if arrival == "before_101":
+                if rp is not None:
+                    rp["delay"] = hold
+            else:
+                hook = {"hook": (hook or {}).get("hook", "response"), "latency": hold}
+    if hook:
+        s["policy"] = list(s.get("policy") or []) + [
+            {"hook": hook["hook"], "nth": 0, "latency": hook["latency"], "action": "pass"}]
+    steps += [{"op": "await_marker", "marker": C_END, "timeout": 400.0}, {"op": "fin"}]
+    s["clients"][0]["steps"] = steps
+    return s
+
+
 def generate(rng, tier):
+    if rng.at("c02-upgrade").random() < UPGRADE_SHARE:
+        return gen_upgrade(rng, tier)
     r = rng.at("c02")
     mode = c01._wchoice(r, MODES)
     form = "absolute" if mode == "regular" else "origin"
@@ -159,6 +322,8 @@ def generate(rng, tier):
 def apply_variant(sc, var):
     s = copy.deepcopy(sc)
     s.pop("variants", None)
+    if s.get("upgrade"):
+        return apply_upgrade_variant(s, var)
     for st, v in zip(s["clients"][0]["steps"], var["client"]):
         if v is not None and st["op"] == "send":
             st["cuts"], st["gaps"] = v["cuts"], v["gaps"]
@@ -197,7 +362,7 @@ def _err_class(e):
     return re.sub(r"[^A-Za-z ]+.*$", "", e).strip()[:40]
 
 
-def summary(obs):
+def summary(obs, upgrade=False):
     flows = []
     for fid, f in obs.flow_objs.items():
         hooks = tuple(name for t, name, key, snap in obs.hooks if key == fid)
@@ -209,7 +374,25 @@ def summary(obs):
                       "error": _err_class(f.error.msg if f.error else None)})
     mode_hooks = tuple(name for t, name, key, snap in obs.hooks if name in ("tcp_start", "tcp_end", "tcp_error"))
     up = []
+    tunnel = None
+    if upgrade:
+        # after the upgrade request / the 101 the streams are opaque: what each peer got behind the HTTP message, and
+        # what the tcp flow(s) recorded per direction (message boundaries are the segmentation's, the bytes are not)
+        tunnel = {"origin": [], "client": [], "tcp_started": "tcp_start" in mode_hooks, "tcp": []}
+        for f in getattr(obs, "tcp_flows", []):
+            tunnel["tcp"].append((b"".join(m.content for m in f.messages if m.from_client),
+                                  b"".join(m.content for m in f.messages if not m.from_client),
+                                  _err_class(f.error.msg if f.error else None)))
     for s in obs.servers:
+        if upgrade:
+            try:
+                m = P.parse_request(s.received, 0)
+                up.append((tuple(s.address), (_msg_req(m),), "ok"))
+                tunnel["origin"].append(s.received[m.end:])
+            except (P.Ambiguous, P.Incomplete) as e:
+                up.append((tuple(s.address), (), type(e).__name__))
+                tunnel["origin"].append(None)
+            continue
         p = P.parse_requests(s.received)
         up.append((tuple(s.address), tuple(_msg_req(m) for m in p.msgs), p.status))
     cl = []
@@ -223,11 +406,70 @@ def summary(obs):
         # arrival, and the interim response carries no message semantics (its framing is C01's business)
         cl.append((tuple(_msg_resp(m) for m in rp.msgs if not (m.status == 100 and not m.headers and not m.body)),
                    rp.status, c.proxy_closed))
-    return {"flows": flows, "raw_tcp": mode_hooks, "upstream": up, "client": cl}
+        if upgrade:
+            tunnel["client"].append(rp.rest if rp.tunnel_from is not None else None)
+    out = {"flows": flows, "raw_tcp": mode_hooks, "upstream": up, "client": cl}
+    if upgrade:
+        out["tunnel"] = tunnel
+    return out
+
+
+def _tcp_monitor(w, obs):
+    """keeps the TCPFlow objects (the family executor records only the names of non-HTTP hooks)"""
+    obs.tcp_flows = []
+
+    def on(t, name, data):
+        if name == "tcp_start":
+            obs.tcp_flows.append(data)
+    w.hook_listeners.append(on)
+
+
+def _upgrade_probes(sc, obs, probes):
+    """when did the client's opaque bytes reach the proxy, relative to the relay of the 101?"""
+    nreq = len(sc["upgrade"]["request"])
+    hook_t = [t for t, name, key, snap in obs.hooks if name in ("responseheaders", "response")]
+    for c in obs.clients:
+        t101 = c.rx_log[0][0] if c.rx_log else None
+        off = 0
+        seen = set()
+        for t, d in c.tx_log:
+            end = off + len(d)
+            if end > nreq:
+                if off < nreq:
+                    seen.add("client_payload_in_request_segment")
+                if t101 is None or t < t101:
+                    seen.add("client_payload_before_101")
+                    if hook_t and t > hook_t[0]:
+                        seen.add("client_payload_while_response_hook_pending")
+                else:
+                    seen.add("client_payload_after_101")
+            off = end
+        for k in seen:
+            probes[k] = probes.get(k, 0) + 1
+        if C_END.encode() in c.received:
+            probes["upgrade_round_trip_complete"] = probes.get("upgrade_round_trip_complete", 0) + 1
+
+
+def _b(x):
+    return "none" if x is None else f"{len(x)} bytes {x[:40]!r}..{x[-24:]!r}"
 
 
 def diff(base, other):
     """first difference between two summaries, as (class, key, text) or None"""
+    if "tunnel" in base:
+        a, b = base["tunnel"], other.get("tunnel") or {}
+        if a["tcp_started"] != b.get("tcp_started"):
+            return ("upgrade_outcome_differs", {"what": "tcp_flow_started", "baseline": a["tcp_started"]},
+                    f"after the 101: tcp flow started in the baseline: {a['tcp_started']}, in the variant: {b.get('tcp_started')}")
+        for what, text in (("origin", "bytes the origin received behind the upgrade request"),
+                           ("client", "bytes the client received behind the 101")):
+            if a[what] != b.get(what):
+                return ("upgrade_outcome_differs", {"what": what + "_payload"},
+                        f"{text}: baseline={[_b(x) for x in a[what]]} variant={[_b(x) for x in b.get(what) or []]}")
+        if a["tcp"] != b.get("tcp"):
+            return ("upgrade_outcome_differs", {"what": "tcp_flow_content"},
+                    f"tcp flow (from client, from server, error): baseline={[tuple(_b(y) if isinstance(y, bytes) else y for y in x) for x in a['tcp']]} "
+                    f"variant={[tuple(_b(y) if isinstance(y, bytes) else y for y in x) for x in b.get('tcp') or []]}")
     if base["raw_tcp"] != other["raw_tcp"]:
         return ("protocol_decision_differs", {"baseline_raw_tcp": bool(base["raw_tcp"])},
                 f"baseline raw-tcp hooks={base['raw_tcp']} variant={other['raw_tcp']}")
@@ -267,10 +509,15 @@ def diff(base, other):
 def execute(sc):
     base_sc = copy.deepcopy(sc)
     base_sc.pop("variants", None)
-    obs0 = H.run(base_sc)
-    s0 = summary(obs0)
+    upgrade = bool(sc.get("upgrade"))
+    mons = (_tcp_monitor,) if upgrade else ()
+    obs0 = H.run(base_sc, monitors=mons)
+    s0 = summary(obs0, upgrade)
     v = []
     probes = {"variants_run": 0}
+    if upgrade:
+        probes["upgrade_family"] = 1
+        _upgrade_probes(sc, obs0, probes)
     if sc.get("pipelined"):
         probes["pipelined"] = 1
     if sc.get("family", "").endswith("-tail"):
@@ -284,7 +531,9 @@ def execute(sc):
         toks_req = [int(t) for t in TOK.findall(c.sent.split(b"\r\n\r\n")[0])][:1]
     for vi, var in enumerate(sc.get("variants", [])):
         vs = apply_variant(sc, var)
-        obs = H.run(vs)
+        obs = H.run(vs, monitors=mons)
+        if upgrade:
+            _upgrade_probes(sc, obs, probes)
         sim_s += obs.sim_s
         probes["variants_run"] += 1
         segs = sum(len(x["cuts"]) for x in var["client"] if x) + sum(len(x["cuts"]) for x in var["replies"].values())
@@ -303,10 +552,15 @@ def execute(sc):
         cr = H.crash_violations(vs, obs)
         if cr and not crash:
             crash = cr
-        d = diff(s0, summary(obs))
+        d = diff(s0, summary(obs, upgrade))
         if d is not None:
             cls, key, text = d
             key = dict(key, mode=sc["modes"][0].split(":")[0])
+            if cls == "upgrade_outcome_differs":
+                # context: does an opaque stream begin with line ends (CR/LF in front of its first payload byte)?
+                key["payload_starts_with_eol"] = any(
+                    sc["upgrade"][k][:1] in ("\r", "\n") for k in ("client_payload", "server_payload"))
+                text = f"arrival={var.get('arrival')}: {text}"
             if cls == "protocol_decision_differs":
                 # context: the first line of the client's stream, judged byte-wise by next_layer's raw-TCP heuristic
                 first_line = H.B(sc["clients"][0]["steps"][0]["data"]).split(b"\n", 1)[0].rstrip(b"\r")
